@@ -271,6 +271,27 @@ def _inter_for(z, t_ob_oa, witness):
     return [w for w in inter if w != z]
 
 
+LOCAL_INSTANTS = [951782400 * US, 1616893200 * US - 1, -1234567 * US, 4102444800 * US + 5]
+
+
+def local_step(acc, pendulum, history, replaying):
+    """Set the local timezone to history[-1] (after history[:-1] when replaying) and convert to 'local'."""
+    for z in (history if replaying else history[-1:]):
+        pendulum.set_local_timezone(_tz(pendulum, z))
+    z = history[-1]
+    for inst in LOCAL_INSTANTS:
+        u = obs.utc_dt(pendulum, inst)
+        base = {"kind": "local", "history": history, "z": z, "inst": inst}
+        acc.c["evaluations"] += 1
+        verify(acc, pendulum, u.in_timezone("local"), z, inst, "in_timezone('local')", dict(base, op="in_timezone('local')"))
+        verify(acc, pendulum, u.in_tz("local"), z, inst, "in_tz('local')", dict(base, op="in_tz('local')"))
+        s_ = inst // US
+        verify(acc, pendulum, pendulum.from_timestamp(s_, tz="local"), z, s_ * US, "from_timestamp(tz='local')",
+               dict(base, op="from_timestamp(tz='local')"))
+        verify(acc, pendulum, pendulum.DateTime.fromtimestamp(s_ + 0.25, pendulum.local_timezone()), z, s_ * US + 250000,
+               "fromtimestamp(local_timezone())", dict(base, op="fromtimestamp(local_timezone())"))
+
+
 def run_shard(shard):
     import pendulum
     acc = core.Acc(ID)
@@ -283,6 +304,21 @@ def run_shard(shard):
         acc.sample({"chain_seed": [shard["seeds"][0]["z"], obs.iso(shard["seeds"][0]["inst"])], "depth": shard["depth"],
                     "zones": [str(z) for z in shard["seeds"][0]["zones"]],
                     "ops": "in_timezone x zones, add/subtract hours/minutes/seconds, +/- timedelta, add days/weeks/months"})
+        return acc.result()
+    if shard.get("kind") == "local":
+        # the target given as 'local' / None: every ordered triple of local-timezone settings made one after the other
+        # WITHOUT a reset in between (depth-3 histories of set_local_timezone), each followed by conversions
+        import itertools
+        zs = shard["zones"]
+        try:
+            for perm in itertools.permutations(zs, 3):
+                for step in range(3):
+                    local_step(acc, pendulum, list(perm[:step + 1]), replaying=False)
+                acc.c["nontrivial"] += 1
+        finally:
+            pendulum.set_local_timezone()
+        acc.c["states"] += len(zs) * len(LOCAL_INSTANTS)
+        acc.sample({"local_timezone_histories": "all ordered triples", "zones": zs})
         return acc.result()
     witness = shard["witness"]
     states = 0
@@ -337,6 +373,12 @@ def replay_case(case, acc):
         from .. import chain
         chain.replay(acc, pendulum, case, {'conv'})
         return
+    if case.get("kind") == "local":
+        try:
+            local_step(acc, pendulum, case["history"], replaying=True)
+        finally:
+            pendulum.set_local_timezone()
+        return
     z, inst = case["z"], case["inst"]
     if case["kind"] == "pair":
         u = obs.utc_dt(pendulum, inst)
@@ -368,6 +410,7 @@ def plan(tier, seed):
     from .. import chain
     cs = chain.chain_seeds(seed, 3 if not thorough else 8)
     shards += [{"kind": "chains", "seeds": ch, "depth": 3, "witness": witness} for ch in seeds.chunks(cs, 32)]
+    shards.append({"kind": "local", "zones": ["Europe/Paris", "Asia/Tokyo", "America/St_Johns", "UTC"]})
     plans = [({"ext": 1, "tz": "sys"}, shards)]
     if thorough:
         plans.append(({"ext": 0, "tz": "pkg"}, shards))
